@@ -159,14 +159,15 @@ func writeMap(w io.Writer, m map[string]interface{}, sdl bool, depth, indent int
 		if 0 < indent {
 			_, err = w.Write(i2)
 		}
-		if err == nil && !sdl {
-			_, err = w.Write([]byte{'"'})
-		}
 		if err == nil {
-			_, err = w.Write([]byte(key))
-		}
-		if err == nil && !sdl {
-			_, err = w.Write([]byte{'"'})
+			// JSON keys are strings. SDL keys are names when they can be,
+			// otherwise they are written as strings which the parser also
+			// accepts as keys.
+			if sdl && isName(key) {
+				_, err = w.Write([]byte(key))
+			} else {
+				err = writeString(w, key, true)
+			}
 		}
 		if err == nil {
 			_, err = w.Write([]byte{':'})
@@ -208,6 +209,16 @@ func writeMap(w io.Writer, m map[string]interface{}, sdl bool, depth, indent int
 		_, err = w.Write([]byte{'\n'})
 	}
 	return
+}
+
+// isName returns true if s is made of token characters only and is not empty.
+func isName(s string) bool {
+	for i := 0; i < len(s); i++ {
+		if charMap[s[i]] != tokenChar {
+			return false
+		}
+	}
+	return 0 < len(s)
 }
 
 func isCollection(v interface{}) bool {
